@@ -183,6 +183,10 @@ def eval_case(case, rec, count=True):
             raw = fp.read_bytes()
             fp.write_bytes(raw[:max(1, len(raw) // 2)])
             del produced['initial']
+        if case.get('stale_tmp'):
+            # a temporary file left by a writer that was killed between writing and renaming (harmless in itself)
+            fp_ = cache.filepath(key)
+            fp_.with_name('tmp_' + fp_.name).write_bytes(b'x' * 5000)
         s = coop.Sched(case.get('schedule', []), chunks=case['chunks'], segments=case.get('segments'))
         computes = {}
 
@@ -325,6 +329,8 @@ def eval_case(case, rec, count=True):
             if overlap:
                 cl.append('overlap-with-writer')
             cl.append('schedule:segments' if case.get('segments') is not None else 'schedule:choices')
+            if case.get('stale_tmp'):
+                cl.append('stale-temporary-file')
             rec.case(case, nontrivial=overlap, classes=cl, key=hyp.digest([case['ctype'], case['populated'], case['ops'],
                                                                            case['chunks'], s.choice_log]),
                      sample={'case': case, 'trace': s.trace[:60]})
@@ -355,6 +361,7 @@ def cases(draw, n_callers=(2, 3)):
             'ctype': draw(st.sampled_from(['json', 'json', 'numpy', 'frame', 'numpy-large'])),
             'populated': draw(st.booleans()),
             'damaged': draw(st.integers(0, 3)) == 0,
+            'stale_tmp': draw(st.integers(0, 3)) == 0,
             'ops': [draw(st.sampled_from(OPS)) for _ in range(n)],
             'chunks': draw(st.integers(1, 3)),
             'segments': draw(st.lists(st.tuples(st.integers(0, n - 1), st.integers(1, 16)).map(list), min_size=2,
@@ -364,6 +371,7 @@ def cases(draw, n_callers=(2, 3)):
         'ctype': draw(st.sampled_from(['json', 'json', 'numpy', 'frame', 'numpy-large', 'numpy-large'])),
         'populated': draw(st.booleans()),
         'damaged': draw(st.integers(0, 3)) == 0,
+        'stale_tmp': draw(st.integers(0, 3)) == 0,
         'ops': [draw(st.sampled_from(OPS)) for _ in range(n)],
         'chunks': draw(st.integers(1, 3)),
         'schedule': draw(st.lists(st.integers(0, 2), min_size=60, max_size=90)),
